@@ -14,12 +14,17 @@ with ≈ as `Spec/Perm.lean` says.  Proved here:
   full_ln_perm             equal hit and hold lists, for ANY two sorting functions
                                                                    hyp: notes of one (time, column) are equal
   rate_perm                same multiset of rows in every list     hyp: well-formed frames (`chartOk`)
-  hitsound_copy_perm_partial   same notes; per (time, name) the same number of named samples on notes + events;
-                           the clap/finish/whistle counts are bounded by the same source counts — for ANY
-                           sorting permutations on both sides (the full multiset of (time, sound) is NOT proved)
+  hitsound_copy_perm       same notes; per (time, bit, volume) the same number of notes; per (time, name, volume) the
+                           same number of notes + event samples — i.e. the same multiset of (time, sound, volume),
+                           for ANY sorting permutations on both sides    hyp: C18's two + source volumes >= 0
+  hitsound_copy_perm_partial   the volume-free part, without the hypothesis on volumes
   counterexamples          each tie hypothesis is necessary (`*_tie_counterexample`), the code before the repair
                            of D18 (`dominant_bpm_order_counterexample`), the object-dtype bit test of N15a
 
+  write_osu_perm           the osu writer: both written texts read back (C01's whole-text reader model) as the same
+                           chart up to row order                   hyp: those of C01's `read_writeText`
+  write_sm_perm_partial    the StepMania writer: same multiset of object slots and of `#BPMS` pairs for any order of
+                           the tempo rows and of the notes          hyp: C10's domain, as C03's `written_beats_exact`
   write_qua_perm           the Quaver writer: both written documents denote (by the book) the same chart up to
                            row order                               hyp: those of C06's `qua_write_denotes`
 
@@ -27,16 +32,21 @@ with ≈ as `Spec/Perm.lean` says.  Proved here:
                            tempo points up to row order (stated over the rows projected on the carried columns, any
                            labels) give charts with the same hits / holds / tempo points up to row order
 
-Not proved here (see manifest.d/C15.json): that a row permutation of a column-oriented frame induces `SrcKeyPerm`
-(the projection lemma), the SV list and the loop shapes of the converters, the osu / StepMania / BMS writers (their
+  convert_one_rowperm      the same with the relation stated as a row permutation of every (column-oriented) source
+                           list under any labels (`projRows_rowPerm`, the projection lemma)
+
+Not proved here (see manifest.d/C15.json): the SV list, the non-carried columns and the loop shapes of the converters, the osu / StepMania / BMS writers (their
 models are not yet composed with `Perm`).
 -/
 import Reamber.Lemmas.PermInv
 import Reamber.Lemmas.PermInvConvert
+import Reamber.Lemmas.PermInvHitsound
 import Reamber.Props.C13
 import Reamber.Props.C17
 import Reamber.Props.C18
 import Reamber.Props.C06
+import Reamber.Props.C01
+import Reamber.Lemmas.PermInvSM
 
 namespace Reamber.PermInv
 
@@ -303,9 +313,8 @@ both sides (`sort_values` is not stable):
   samples (t, f) is the same on both sides (which of several named samples overflows to the event list may differ);
 * on both sides the claps / finishes / whistles at each time are bounded by the same source counts.
 
-FULL STATEMENT (not proved): the multisets of (time, clap|finish|whistle|name, volume) over notes and event samples
-together are equal.  Missing: that the number of default sounds placed per (time, volume group) is a function of
-the group's counts only — it needs an exact characterisation of `defaultsLoop` / `queue` beyond C18's bounds. -/
+The full statement (with volumes, and equality instead of the common bound for the three bits) is
+`hitsound_copy_perm` below; this one needs no hypothesis on the volumes. -/
 theorem hitsound_copy_perm_partial (σs σt σs' σt' : List Nat) (src tgt src' tgt' : Chart)
     (h : PermsOk σs σt src tgt) (h' : PermsOk σs' σt' src' tgt')
     (hsrc : HsChartPerm src src') (htgt : HsChartPerm tgt tgt')
@@ -327,7 +336,155 @@ theorem hitsound_copy_perm_partial (σs σt σs' σt' : List Nat) (src tgt src' 
     have := counts_le σs' σt' src' tgt' h' t
     simpa only [countsLeAt, cnt_perm hsrc] using this
 
-/-- N15a (open finding), the mechanism: on an object-dtype column pandas evaluates `hitsound_set & HS_CLAP` as a
+/-! ### hitsound_copy in full -/
+
+theorem concatNotes_perm {c c' : Chart} (h : HsChartPerm c c') : (concatNotes c).Perm (concatNotes c') := by
+  unfold concatNotes
+  exact (h.1.map _).append h.2
+
+theorem srcSorted_perm {σs σt σs' σt' : List Nat} {src tgt src' tgt' : Chart} (h : PermsOk σs σt src tgt)
+    (h' : PermsOk σs' σt' src' tgt') (hsrc : HsChartPerm src src') : (srcSorted σs src).Perm (srcSorted σs' src') := by
+  unfold srcSorted
+  exact ((Hitsound.gather_perm _ _ h.hs h.ls).trans ((concatNotes_perm hsrc).filter _)).trans
+    (Hitsound.gather_perm _ _ h'.hs h'.ls).symm
+
+theorem df0_perm {σs σt σs' σt' : List Nat} {src tgt src' tgt' : Chart} (h : PermsOk σs σt src tgt)
+    (h' : PermsOk σs' σt' src' tgt') (htgt : HsChartPerm tgt tgt') : (df0 σt tgt).Perm (df0 σt' tgt') := by
+  have hl : σt.length = (concatNotes (resetSamples tgt)).length := by
+    rw [h.lt]; simp [concatNotes, resetSamples]
+  have hl' : σt'.length = (concatNotes (resetSamples tgt')).length := by
+    rw [h'.lt]; simp [concatNotes, resetSamples]
+  have hr : HsChartPerm (resetSamples tgt) (resetSamples tgt') := ⟨htgt.1.map _, htgt.2.map _⟩
+  unfold df0
+  exact ((Hitsound.gather_perm _ _ h.ht hl).trans (concatNotes_perm hr)).trans (Hitsound.gather_perm _ _ h'.ht hl').symm
+
+/-- event samples `(u, f, w)` of a chart -/
+def evCnt (c : Chart) (u : Rat) (f : File) (w : Int) : Nat :=
+  c.samples.countP (fun e => e.offset == u && (e.file == f && e.volume == w))
+
+theorem evCnt_out (σs σt : List Nat) (src tgt : Chart) (u : Rat) (f : File) (w : Int) :
+    evCnt (copyWith σs σt src tgt) u f w
+      = ((queue (srcSorted σs src) u).drop ((df0 σt tgt).filter (fun n => n.offset == u)).length).countP (peFile f w) := by
+  unfold evCnt
+  rw [copyWith_eq]
+  have : ∀ (l : List Ev), l.countP (fun e => e.offset == u && (e.file == f && e.volume == w))
+      = (l.filter (fun e => e.offset == u)).countP (fun e => e.file == f && e.volume == w) := by
+    intro l
+    rw [List.countP_filter]
+    apply List.countP_congr
+    intro e _
+    simp [Bool.and_comm]
+  rw [this]
+  simp only [finalEvs_at, evsOf_countP_vol]
+
+theorem clampVol_nonneg {v : Int} (h : 0 ≤ v) : clampVol v = v := by
+  unfold clampVol
+  split <;> omega
+
+/-- **hitsound_copy, in full.**  Source and target in two row orders, ANY sorting permutations on both sides.  Then
+* the results have the same notes (time, column, length, kind) as multisets;
+* for every time `u`, every sound bit `m` (clap, finish, whistle) and every volume `w`: the same number of result notes
+  at `u` carry bit `m` at volume `w`;
+* for every time `u`, sample name `f` and volume `w`: the number of result notes at `u` carrying `f` at volume `w` plus
+  the number of event samples `(u, f, w)` is the same.
+That is: the multisets of (time, clap|finish|whistle|name, volume) over result notes and event samples together are equal
+(which of several named samples overflows to the event list may differ — it follows the row order by design of the loop).
+Hypotheses: those of C18 (target holds have a length; no source name contains `;`) and source volumes are not negative
+(a negative volume is clamped to 0 on a note but kept on an event sample, so the split would show). -/
+theorem hitsound_copy_perm (σs σt σs' σt' : List Nat) (src tgt src' tgt' : Chart)
+    (h : PermsOk σs σt src tgt) (h' : PermsOk σs' σt' src' tgt')
+    (hsrc : HsChartPerm src src') (htgt : HsChartPerm tgt tgt')
+    (hl : holdsHaveLength tgt = true) (hsep : noSep src = true) (hv : ∀ n ∈ notesOf src, 0 ≤ n.volume) :
+    (noteKeys (copyWith σs σt src tgt)).Perm (noteKeys (copyWith σs' σt' src' tgt')) ∧
+    (∀ (u : Rat) (m : Nat) (w : Int), hasBit 0 m = false →
+      cnt (fun n => hasBit n.hs m && n.volume == w) u (copyWith σs σt src tgt)
+        = cnt (fun n => hasBit n.hs m && n.volume == w) u (copyWith σs' σt' src' tgt')) ∧
+    (∀ (u : Rat) (f : File) (w : Int), f ≠ [] →
+      cnt (fun n => n.file == f && n.volume == w) u (copyWith σs σt src tgt) + evCnt (copyWith σs σt src tgt) u f w
+        = cnt (fun n => n.file == f && n.volume == w) u (copyWith σs' σt' src' tgt')
+          + evCnt (copyWith σs' σt' src' tgt') u f w) := by
+  have hS := srcSorted_perm h h' hsrc
+  have hns : NoSepL (srcSorted σs src) := noSepL_srcSorted σs σt src tgt h hsep
+  have hns' : NoSepL (srcSorted σs' src') := noSepL_srcSorted σs' σt' src' tgt' h' (noSep_perm hsrc hsep)
+  have hk : ∀ u : Rat, ((df0 σt tgt).filter (fun n => n.offset == u)).length
+      = ((df0 σt' tgt').filter (fun n => n.offset == u)).length :=
+    fun u => ((df0_perm h h' htgt).filter _).length_eq
+  -- source volumes, seen from the sorted rows
+  have hvS : ∀ (σ : List Nat) (τ : List Nat) (s t : Chart), PermsOk σ τ s t → (∀ n ∈ notesOf s, 0 ≤ n.volume) →
+      ∀ n ∈ srcSorted σ s, 0 ≤ n.volume := by
+    intro σ τ s t hp hvs n hn
+    rw [srcSorted, (Hitsound.gather_perm _ _ hp.hs hp.ls).mem_iff, List.mem_filter] at hn
+    have hn := hn.1
+    simp only [concatNotes, List.mem_append, List.mem_map] at hn
+    rcases hn with ⟨x, hx, rfl⟩ | hn
+    · exact hvs x (by simp [notesOf, hx])
+    · exact hvs n (by simp [notesOf, hn])
+  have hv' : ∀ n ∈ notesOf src', 0 ≤ n.volume := fun n hn => hv n ((notesOf_perm hsrc).mem_iff.mpr hn)
+  refine ⟨(hitsound_copy_perm_partial σs σt σs' σt' src tgt src' tgt' h h' hsrc htgt hl hsep).1, ?_, ?_⟩
+  · intro u m w hm
+    have key : ∀ (σ τ : List Nat) (s t : Chart), PermsOk σ τ s t →
+        cnt (fun n => hasBit n.hs m && n.volume == w) u (copyWith σ τ s t)
+          = ((queue (srcSorted σ s) u).take ((df0 τ t).filter (fun n => n.offset == u)).length).countP (ppBit m w) := by
+      intro σ τ s t hp
+      rw [cnt_out]
+      apply zipApply_countP _ _ _ _ _ _ (df0_at_reset σ τ s t hp u)
+      · intro r hr; simp [hr.1, hm]
+      · intro r p hr
+        cases p with
+        | dflt v vol => rfl
+        | file g vol => simp [applyP, ppBit, hr.1, hm]
+    rw [key σs σt src tgt h, key σs' σt' src' tgt' h', hk u]
+    apply queue_take_countP_dflt hS hns u
+    intro p hp
+    cases p with
+    | dflt _ _ => rfl
+    | file _ _ => simp [ppBit] at hp
+  · intro u f w hf
+    have key : ∀ (σ τ : List Nat) (s t : Chart), PermsOk σ τ s t → NoSepL (srcSorted σ s) →
+        (∀ n ∈ srcSorted σ s, 0 ≤ n.volume) →
+        cnt (fun n => n.file == f && n.volume == w) u (copyWith σ τ s t) + evCnt (copyWith σ τ s t) u f w
+          = ((srcSorted σ s).filter (fun n => n.offset == u)).countP (fun n => n.file == f && n.volume == w) := by
+      intro σ τ s t hp hnsep hvol
+      have e1 : cnt (fun n => n.file == f && n.volume == w) u (copyWith σ τ s t)
+          = ((queue (srcSorted σ s) u).take ((df0 τ t).filter (fun n => n.offset == u)).length).countP (ppFile f w) := by
+        rw [cnt_out]
+        apply zipApply_countP _ _ _ _ _ _ (df0_at_reset σ τ s t hp u)
+        · intro r hr; simp [hr.2.1, hf]
+        · intro r p hr
+          cases p with
+          | dflt v vol => simp [applyP, ppFile, hr.2.1, hf]
+          | file g vol => rfl
+      have e2 : ((queue (srcSorted σ s) u).take ((df0 τ t).filter (fun n => n.offset == u)).length).countP (ppFile f w)
+          = ((queue (srcSorted σ s) u).take ((df0 τ t).filter (fun n => n.offset == u)).length).countP (peFile f w) := by
+        apply List.countP_congr
+        intro p hp
+        have hpq := List.mem_of_mem_take hp
+        obtain ⟨n, hn, hnv⟩ := queue_vol _ u p hpq
+        cases p with
+        | dflt _ _ => simp [ppFile, peFile]
+        | file g vol =>
+          have hvol : 0 ≤ vol := by
+            have := hvol n hn
+            simp only [pVol] at hnv
+            omega
+          simp [ppFile, peFile, clampVol_nonneg hvol]
+      rw [e1, e2, evCnt_out, ← List.countP_append, List.take_append_drop, queue_peFile _ hnsep u f hf w]
+    rw [key σs σt src tgt h hns (hvS σs σt src tgt h hv), key σs' σt' src' tgt' h' hns' (hvS σs' σt' src' tgt' h' hv')]
+    exact (hS.filter _).countP_eq _
+
+/-- non-vacuity: two claps and a named sample at time 0 in two row orders, one target note -/
+def exSrcA : Chart := ⟨[⟨0, 0, none, 2, 0, 0, 0, 20, []⟩, ⟨0, 1, none, 0, 0, 0, 0, 20, [97]⟩, ⟨0, 2, none, 2, 0, 0, 0, 30, []⟩], [], []⟩
+def exSrcB : Chart := ⟨[⟨0, 2, none, 2, 0, 0, 0, 30, []⟩, ⟨0, 1, none, 0, 0, 0, 0, 20, [97]⟩, ⟨0, 0, none, 2, 0, 0, 0, 20, []⟩], [], []⟩
+def exTgt1 : Chart := ⟨[⟨0, 0, none, 0, 0, 0, 0, 0, []⟩], [], []⟩
+
+example : PermsOk [0, 1, 2] [0] exSrcA exTgt1 ∧ PermsOk [2, 0, 1] [0] exSrcB exTgt1 ∧ HsChartPerm exSrcA exSrcB ∧
+    HsChartPerm exTgt1 exTgt1 ∧ holdsHaveLength exTgt1 = true ∧ noSep exSrcA = true ∧
+    (∀ n ∈ notesOf exSrcA, 0 ≤ n.volume) := by
+  refine ⟨⟨List.Perm.refl _, by decide, List.Perm.refl _, by decide⟩,
+    ⟨by unfold Timing.IsPerm; decide, by decide, List.Perm.refl _, by decide⟩, ⟨by decide, List.Perm.refl _⟩,
+    ⟨List.Perm.refl _, List.Perm.refl _⟩, by decide, by decide, by decide⟩
+
+/-- D40 (found as N15a, since repaired), the mechanism: on an object-dtype column pandas evaluates `hitsound_set & HS_CLAP` as a
 logical and of truth values, and `True == 2` / `False == 2` are both false — no bit is ever found -/
 def hasBitObject (hs m : Nat) : Bool := (if (hs ≠ 0 ∧ m ≠ 0) then 1 else 0) == m
 
@@ -358,7 +515,170 @@ theorem convert_one_perm : ∀ c ∈ Generated.converters, ∀ (src src' : Src) 
   exact contentOk_perm (convOne_content tables c src cur k t (table_static_ok c hc) hok h)
     (convOne_content tables c src' cur' k t' (table_static_ok c hc) hok' h') hrel
 
+/-- **converters, stated on row permutations**: `cur'` is `cur` with the rows of every list re-ordered (each list by
+its own permutation, any row labels, `SrcRowPerm`).  Then every shipped converter gives charts with the same hits,
+holds and tempo points up to row order. -/
+theorem convert_one_rowperm : ∀ c ∈ Generated.converters, ∀ (src src' : Src) (cur cur' : SrcMap) (k : Int) (t t' : TChart),
+    srcMapOk cur = true → srcMapOk cur' = true →
+    convOne tables c src cur k = .ok t → convOne tables c src' cur' k = .ok t' → SrcRowPerm cur cur' →
+    (∀ rt rt', projRows t.hits keysHits = some rt → projRows t'.hits keysHits = some rt' → rt.Perm rt') ∧
+    (∀ rt rt', projRows t.holds keysHolds = some rt → projRows t'.holds keysHolds = some rt' → rt.Perm rt') ∧
+    (∀ rt rt', projRows t.bpms keysBpms = some rt → projRows t'.bpms keysBpms = some rt' → rt.Perm rt') :=
+  fun c hc src src' cur cur' k t t' hok hok' h h' hrel =>
+    convert_one_perm c hc src src' cur cur' k t t' hok hok' h h' (srcKeyPerm_of_rowPerm hrel)
+
+/-- non-vacuity: a two-row hit list and the same list reversed under other labels -/
+example : RowPermOf [1, 0]
+    ⟨[0, 1], [("offset", [.num 10, .num 20]), ("column", [.num 0, .num 3])]⟩
+    ⟨[7, 5], [("offset", [.num 20, .num 10]), ("column", [.num 3, .num 0])]⟩ :=
+  ⟨List.Perm.swap _ _ _, rfl, rfl, rfl⟩
+
 end Converters
+
+/-! ## the osu writer -/
+
+section OsuWriter
+
+/-- the same osu chart up to the row order of its four lists (the sample events live in the metadata, in order) -/
+def OsuChartPerm (c c' : Osu.Chart) : Prop :=
+  c.md = c'.md ∧ c.bpms.Perm c'.bpms ∧ c.svs.Perm c'.svs ∧ c.hits.Perm c'.hits ∧ c.holds.Perm c'.holds
+
+theorem osu_insertBy_perm {α} (le : α → α → Bool) (x : α) (l : List α) : (Osu.insertBy le x l).Perm (x :: l) := by
+  induction l with
+  | nil => simp [Osu.insertBy]
+  | cons y ys ih =>
+    simp only [Osu.insertBy]
+    split
+    · exact List.Perm.refl _
+    · exact (List.Perm.cons y ih).trans (List.Perm.swap x y ys)
+
+theorem osu_isort_perm {α} (le : α → α → Bool) (l : List α) : (Osu.isort le l).Perm l := by
+  induction l with
+  | nil => simp [Osu.isort]
+  | cons x xs ih =>
+    have : Osu.isort le (x :: xs) = Osu.insertBy le x (Osu.isort le xs) := rfl
+    rw [this]
+    exact (osu_insertBy_perm le x _).trans (List.Perm.cons x ih)
+
+theorem osu_sortedObjs_perm {c c' : Osu.Chart} (h : OsuChartPerm c c') : (Osu.sortedObjs c).Perm (Osu.sortedObjs c') := by
+  unfold Osu.sortedObjs
+  exact ((osu_isort_perm _ _).trans ((h.2.2.2.2.map _).append (h.2.2.2.1.map _))).trans (osu_isort_perm _ _).symm
+
+theorem osu_quantize_perm (uni : Osu.Str → Osu.Str) {c c' : Osu.Chart} (h : OsuChartPerm c c') :
+    OsuChartPerm (Osu.quantize uni c) (Osu.quantize uni c') := by
+  have hs := osu_sortedObjs_perm h
+  refine ⟨?_, ?_, ?_, ?_, ?_⟩
+  · simp only [Osu.quantize, h.1]
+  · exact h.2.1.map _
+  · exact h.2.2.1
+  · exact (hs.filterMap _).map _
+  · exact (hs.filterMap _).map _
+
+/-- **OsuMap.write**: the texts written for two row orders of one chart both read back (the reader model of C01,
+whole text: split at line breaks, sections, metadata loop, classifiers, `read_string`s), and what they read back as is
+the same chart up to row order: same metadata and sample events, same multisets of hits, holds, tempo points and SVs
+(times truncated to whole ms by the format).  Hypotheses: those of C01's `read_writeText`, on the first chart (they
+are properties of the rows and of the metadata, so they hold for the second). -/
+theorem write_osu_perm (R : Osu.Render) (c c' : Osu.Chart) (h : OsuChartPerm c c')
+    (hk : 0 < Osu.pyTrunc c.md.circleSize) (hk' : Osu.pyTrunc c.md.circleSize ≤ 256)
+    (hhits : ∀ x ∈ c.hits, Osu.ObjOk2 (Osu.pyTrunc c.md.circleSize) (.hit x))
+    (hholds : ∀ x ∈ c.holds, Osu.ObjOk2 (Osu.pyTrunc c.md.circleSize) (.hold x))
+    (hb : ∀ b ∈ c.bpms, Osu.BpmOk2 R b) (hs : ∀ b ∈ c.svs, Osu.SvOk2 R b)
+    (hm : Osu.MetaOk R c.md) (hnl : ∀ tl ∈ Osu.writeMeta c.md, ∀ t ∈ tl, '\n' ∉ R.tok t) :
+    ∃ q q', Osu.readText (Osu.writeText R c) = .ok q ∧ Osu.readText (Osu.writeText R c') = .ok q' ∧ OsuChartPerm q q' := by
+  obtain ⟨hmd, hpb, hps, hph, hpl⟩ := h
+  refine ⟨_, _, Osu.read_writeText R c hk hk' hhits hholds hb hs hm hnl,
+    Osu.read_writeText R c' (hmd ▸ hk) (hmd ▸ hk') ?_ ?_ ?_ ?_ (hmd ▸ hm) (hmd ▸ hnl),
+    osu_quantize_perm R.uni ⟨hmd, hpb, hps, hph, hpl⟩⟩
+  · intro x hx; rw [← hmd]; exact hhits x (hph.mem_iff.mpr hx)
+  · intro x hx; rw [← hmd]; exact hholds x (hpl.mem_iff.mpr hx)
+  · intro b hb'; exact hb b (hpb.mem_iff.mpr hb')
+  · intro b hb'; exact hs b (hps.mem_iff.mpr hb')
+
+end OsuWriter
+
+/-! ## the StepMania writer (partial) -/
+
+section SMWriter
+open Reamber.Timing Reamber.SM
+
+/-- the objects of a chart as `SMMap.write` slots them (measure, numerator, denominator, column, symbol), before the
+rows of each measure are rendered -/
+def smSlots (c : WChart) : Except Timing.Err (List Slot) :=
+  (beats defaultGrid (toTimingMap c.bpms) ((writeOrder c.notes).map (·.1))).map fun bs =>
+    ((writeOrder c.notes).zip bs).map fun ob => slotOf ob.2 ob.1.2.1 ob.1.2.2
+
+theorem writeChartRows_of_slots (c : WChart) (s : List Slot) (h : smSlots c = .ok s) :
+    writeChartRows c = (match getKeys c.chartType with
+      | none => if s.isEmpty then .ok [] else .error .other
+      | some keys => writeLoop keys s (-1) (measuresSorted s)) := by
+  unfold smSlots at h
+  cases hb : beats defaultGrid (toTimingMap c.bpms) ((writeOrder c.notes).map (·.1)) with
+  | error e => simp [hb, Except.map] at h
+  | ok bs =>
+    simp only [hb, Except.map, Except.ok.injEq] at h
+    subst h
+    unfold writeChartRows
+    simp only [hb, bind, Except.bind]
+    cases getKeys c.chartType <;> rfl
+
+/-- **SMMapSet.write, the part that is proved.**  The tempo rows of the chart are, in ANY row order, the stored form of a
+tempo-change list in C10's domain (4-beat metronome, distinct times), every object and tempo time is on the snap grid.
+For a second chart with the same notes and the same tempo rows in other row orders:
+* the slots of the objects (measure, position in the measure, column, symbol) are the same multiset — and
+  `writeChartRows` is a function of the slots (`writeChartRows_of_slots`);
+* the written `#BPMS` pairs (beat rounded to 6 decimals = bpm) are the same multiset — the positional pairing
+  `zip(bpm_beats, bpms)` that the property names pairs every tempo row with its own beat in both orders.
+
+FULL STATEMENT (not proved): the two written texts have the same by-the-book denotation.  Missing: that the rendering
+of a measure (`fillMeasure`: capped running lcm of the denominators, cell writes where the last write wins) does not
+depend on the order of the slots — true without the cap and without two objects in one cell (C03: `foldl_capLcm_eq`,
+`cells_no_collision`), not composed here; the header's other lines do not depend on the lists at all. -/
+theorem write_sm_perm_partial (t0 : Rat) (cs : List BcSnap)
+    (hwf : wfChanges cs = true) (hs : sortedSnaps cs = true) (h0 : firstAtZero cs = true)
+    (hgc : gridCompatible (grid defaultMaxDiv) cs = true) (hm : metronomeOk cs = true)
+    (hM : ∀ c ∈ cs, c.met = 4) (hd : DistinctOffsets (tmOf t0 cs)) (c c' : WChart)
+    (hb : (tmOf t0 cs).Perm (toTimingMap c.bpms)) (hbp : c.bpms.Perm c'.bpms) (hn : c.notes.Perm c'.notes)
+    (hts : ∀ t ∈ (writeOrder c.notes).map (·.1), OnGridAt (grid defaultMaxDiv) t0 cs t)
+    (htb : ∀ t ∈ c.bpms.map (·.1), OnGridAt (grid defaultMaxDiv) t0 cs t) :
+    (∃ s s', smSlots c = .ok s ∧ smSlots c' = .ok s' ∧ s.Perm s') ∧
+    (∀ (h h' : WHeader) (rest rest' : List WChart) (w w' : Written),
+      SM.write h (c :: rest) = .ok w → SM.write h' (c' :: rest') = .ok w' → w.bpms.Perm w'.bpms) := by
+  have hg : defaultGrid.toList = grid defaultMaxDiv := by simp [defaultGrid]
+  have hb' : (tmOf t0 cs).Perm (toTimingMap c'.bpms) := hb.trans (hbp.map _)
+  have hwo := writeOrder_perm hn
+  have B : ∀ (tm' : List BcOff), (tmOf t0 cs).Perm tm' → ∀ ts : List Rat,
+      (∀ t ∈ ts, OnGridAt (grid defaultMaxDiv) t0 cs t) → beats defaultGrid tm' ts = .ok (ts.map (beatAt t0 cs)) :=
+    fun tm' hp ts ht => beats_any_order defaultGrid (gridOK_grid (by decide)) t0 cs hwf hs h0 (by rw [hg]; exact hgc) hm 4 hM
+      tm' hp hd ts (by rw [hg]; exact ht)
+  have hts' : ∀ t ∈ (writeOrder c'.notes).map (·.1), OnGridAt (grid defaultMaxDiv) t0 cs t :=
+    fun t ht => hts t ((hwo.map _).mem_iff.mpr ht)
+  have htb' : ∀ t ∈ c'.bpms.map (·.1), OnGridAt (grid defaultMaxDiv) t0 cs t :=
+    fun t ht => htb t ((hbp.map _).mem_iff.mpr ht)
+  constructor
+  · have S : ∀ (cc : WChart), (tmOf t0 cs).Perm (toTimingMap cc.bpms) →
+        (∀ t ∈ (writeOrder cc.notes).map (·.1), OnGridAt (grid defaultMaxDiv) t0 cs t) →
+        smSlots cc = .ok ((writeOrder cc.notes).map fun o => slotOf (beatAt t0 cs o.1) o.2.1 o.2.2) := by
+      intro cc hcb hct
+      simp only [smSlots, B _ hcb _ hct, Except.map, List.map_map, zip_self_map]
+      rfl
+    exact ⟨_, _, S c hb hts, S c' hb' hts', hwo.map _⟩
+  · intro h h' rest rest' w w' hw hw'
+    have e : ∀ (hh : WHeader) (cc : WChart) (rr : List WChart) (ww : Written),
+        beats defaultGrid (toTimingMap cc.bpms) (cc.bpms.map (·.1)) = .ok ((cc.bpms.map (·.1)).map (beatAt t0 cs)) →
+        SM.write hh (cc :: rr) = .ok ww → ww.bpms = cc.bpms.map (fun p => (round6 (beatAt t0 cs p.1), p.2)) := by
+      intro hh cc rr ww hbb hww
+      unfold SM.write at hww
+      simp only [hbb, bind, Except.bind] at hww
+      split at hww
+      · cases hww
+      · cases hww
+        simp only [List.map_map, zip_map_self]
+        rfl
+    rw [e h c rest w (B _ hb _ htb) hw, e h' c' rest' w' (B _ hb' _ htb') hw']
+    exact hbp.map _
+
+end SMWriter
 
 /-! ## the Quaver writer -/
 
